@@ -2,6 +2,8 @@ package v1
 
 import (
 	"encoding/asn1"
+	"encoding/base64"
+	"strings"
 )
 
 // vhCanonicalCert: C02, "every length, INTEGER, BOOLEAN, BIT STRING, OID and
@@ -113,4 +115,62 @@ func vDnValue(name string, n int) string {
 		vAssume(vOr(alnum, punct))
 	}
 	return s
+}
+
+// vhPemText: C02, "decoding then re-encoding the PEM block reproduces it byte
+// for byte". The certificate's DER length is swept over a full period of the
+// base64 line structure (subject values of 1..N characters, N = 48 covers
+// every residue of the length modulo 48, i.e. every fill of the last line,
+// the exactly full one included); the text WritePem produces is compared
+// with the RFC 7468 encoding written out by the harness itself (64-character
+// lines, no empty line, one line feed after the END line).
+func vhPemText() {
+	n := vChoose("cnLen", vParam("N", 48)) + 1
+	if vSymbolic() {
+		vPemTextOne(n)
+		return
+	}
+	// replay: real signatures have other (and varying) lengths than the
+	// model's, so the subject length of the counterexample does not produce
+	// the same fill of the last line natively; the native run sweeps two full
+	// periods instead and fails on whichever length shows the defect
+	for k := 1; k <= 96; k++ {
+		vPemTextOne(k)
+	}
+}
+
+func vPemTextOne(n int) {
+	cn := make([]byte, n)
+	for i := range cn {
+		cn[i] = 'a' + byte(i%26)
+	}
+	crt, _, err := vGenerate(CertConfig{Subject: "CN=" + string(cn), SerialNumber: 5, Validity: CertValidity{From: "2024-03-05", Until: "2030-01-01"}})
+	vAssert(err == nil && crt != nil, "generation failed")
+	if err != nil || crt == nil {
+		return
+	}
+	der, merr := asn1.Marshal(*crt)
+	vAssert(merr == nil, "the certificate cannot be encoded")
+	if merr != nil {
+		return
+	}
+	var sb strings.Builder
+	werr := crt.WritePem(&sb)
+	vAssert(werr == nil, "WritePem failed")
+	if werr != nil {
+		return
+	}
+	vReach("written")
+	b64 := base64.StdEncoding.EncodeToString(der)
+	want := "-----BEGIN CERTIFICATE-----\n"
+	for len(b64) > 64 {
+		want += b64[:64] + "\n"
+		b64 = b64[64:]
+	}
+	if len(b64) > 0 {
+		want += b64 + "\n"
+	}
+	want += "-----END CERTIFICATE-----\n"
+	got := sb.String()
+	vAssert(len(got) == len(want) && got == want, "the PEM block is not the canonical text of its DER content (decoding and re-encoding does not reproduce it)")
 }
